@@ -619,5 +619,8 @@ PROPS["C18"]["explanation"] += " (CREATETYPE) the copy of an object is created w
 PROPS["C13"]["rules"] = PROPS["C13"]["rules"] + [rules_handles.rule_replacement_opened_first]
 PROPS["C13"]["explanation"] += " (SWAPSTREAM) Hopen closes the stream of a live file record only after its replacement has been opened."
 
+PROPS["C07"]["rules"] = PROPS["C07"]["rules"] + [rules_loops.rule_redefinition_replaces]
+PROPS["C07"]["explanation"] += " (REDEFINE) VSfdefine replaces a stored definition of the same name when the type or the order differs."
+
 NOT_APPLICABLE = {}
 
